@@ -55,6 +55,19 @@ def gen(rng):
         else:
             rows.append([rng.randint(-4, 5) for _ in range(n)])
             rhs.append(rng.randint(-3, 8))
+    if rng.random() < 0.35 and n >= 2:
+        # near-miss bound rows: look like 'x_j <= 1' (rhs 1, coefficient +1 on an integer variable) but carry other terms,
+        # with and without the real bound rows next to them (exercises the binary-detection special case)
+        for j in ints:
+            row = [0] * n
+            row[j - 1] = 1
+            others = [k for k in range(n) if k != j - 1]
+            for k in rng.sample(others, rng.randint(1, len(others))):
+                row[k] = rng.choice([-3, -2, -1, 1, 2])
+            rows.append(row)
+            rhs.append(1)
+        ub = [rng.randint(2, 4) if j + 1 in ints else ub[j] for j in range(n)]
+        binary = False
     explicit = rng.random() < 0.8 or not binary
     for j in range(n):        # explicit upper bounds (needed for finiteness; for binaries sometimes as x_j <= 1 rows)
         row = [0] * n
@@ -77,3 +90,54 @@ def gen(rng):
         configs.append({"minimize": minimize, "lns_iterations": 3, "seed": rng.randint(0, 99)})
         configs.append({"minimize": minimize, "solution_limit": 3})
     return {"A": A, "b": b, "c": c, "ints": ints, "cv": cv, "ub": ub, "configs": configs, "floats": rng.random() < 0.5}
+
+
+def gen_nearmiss(rng):
+    """two or three integer variables plus one continuous one; every integer variable has a row that looks like x_j <= 1
+    (rhs 1, coefficient +1) but also involves the continuous variable; real upper bounds are larger"""
+    ni = rng.randint(2, 3) if rng.random() < 0.8 else 1
+    n = ni + 1
+    cv = n
+    ints = list(range(1, ni + 1))
+    ub = [rng.randint(2, 3) for _ in range(ni)] + [rng.randint(1, 3)]
+    rows, rhs = [], []
+    for j in range(ni):
+        row = [0] * n
+        row[j] = 1
+        row[cv - 1] = rng.choice([-3, -2, -1, -1, 1, 2])
+        rows.append(row)
+        rhs.append(1)
+    for _ in range(rng.randint(1, 2)):
+        rows.append([rng.randint(0, 4) for _ in range(ni)] + [rng.randint(-1, 2)])
+        rhs.append(rng.randint(1, 6))
+    for j in range(n):
+        row = [0] * n
+        row[j] = 1
+        rows.append(row)
+        rhs.append(ub[j])
+    order = list(range(len(rows)))
+    rng.shuffle(order)
+    c = [rng.randint(-6, 2) for _ in range(ni)] + [rng.randint(0, 5)]
+    return {"A": [rows[i] for i in order], "b": [rhs[i] for i in order], "c": c, "ints": ints, "cv": cv, "ub": ub,
+            "configs": [{"minimize": True}, {"minimize": False}, {"minimize": True, "heuristics": False}], "floats": False}
+
+
+def run_milp_bulk(case):
+    """Coverage-directed generation: many near-miss instances; executions in which the binary-tightening action fires (rare
+    on this family) are all kept, the rest is sampled.  Only kept executions go to TLC."""
+    from solvor import _verif
+    rng = random.Random(case["seed"])
+    kept, cov = [], {"instances": 0, "tighten_binary_fired": 0, "sampled": 0}
+    for _ in range(case["count"]):
+        c = gen_nearmiss(rng)
+        _verif.start()
+        tr = run_milp(c)
+        events, _ = _verif.stop()
+        fired = any(e.get("e") == "milp_tighten_binary" for e in events)
+        cov["instances"] += 1
+        cov["tighten_binary_fired"] += fired
+        if fired or rng.random() < 0.03:
+            cov["sampled"] += 1
+            tr["coverage"] = "TightenBinary" if fired else "sample"
+            kept.append(tr)
+    return {"kept": kept, "cov": cov}
